@@ -108,8 +108,12 @@ var (
 	recRoot string
 	recLog  []Op
 	recOn   bool
-	// Points makes FS calls scheduling points in controlled mode.
+	// Points makes namespace calls (create, open, rename, remove, readdir, stat, glob) scheduling points in controlled mode.
 	Points = true
+	// DataPoints also makes data calls on open files (read, write, sync, close) scheduling points. Off by default:
+	// kevo only writes files that are private to one thread (SSTable temp file) or guarded by a mutex (log file),
+	// and reads immutable files, so the order of data calls is fixed by the namespace calls and locks around them.
+	DataPoints = false
 )
 
 // StartRecording begins recording mutating calls under root.
@@ -165,10 +169,16 @@ func point(path string, write bool) {
 	if write {
 		k = vsched.KFSW
 	}
-	vsched.Point(&vsched.Op{Kind: k, Obj: s.ObjFor("fs:"+filepath.Clean(path), "fs:"+filepath.Base(path)), Write: write})
+	vsched.Point(&vsched.Op{Kind: k, Obj: s.ObjFor("fs:"+filepath.Clean(path), "fs:"+normName(filepath.Base(path))), Write: write})
 }
 
 // dirPoint: operations that change or read the set of names in a directory.
+func dataPoint(path string, write bool) {
+	if DataPoints {
+		point(path, write)
+	}
+}
+
 func dirPoint(path string, write bool) {
 	point(filepath.Dir(filepath.Clean(path))+"/", write)
 }
@@ -189,7 +199,7 @@ func wrap(f *os.File, path string, app bool) *File {
 }
 
 func (f *File) Write(b []byte) (int, error) {
-	point(f.path, true)
+	dataPoint(f.path, true)
 	var off int64
 	r, rec := rel(f.path)
 	if rec {
@@ -211,7 +221,7 @@ func (f *File) Write(b []byte) (int, error) {
 func (f *File) WriteString(s string) (int, error) { return f.Write([]byte(s)) }
 
 func (f *File) WriteAt(b []byte, off int64) (int, error) {
-	point(f.path, true)
+	dataPoint(f.path, true)
 	n, err := f.File.WriteAt(b, off)
 	if r, rec := rel(f.path); rec && n > 0 {
 		recLog = append(recLog, Op{Kind: OpWrite, Path: r, Off: off, Data: append([]byte(nil), b[:n]...)})
@@ -225,17 +235,17 @@ func (f *File) ReadFrom(r io.Reader) (int64, error) {
 }
 
 func (f *File) Read(b []byte) (int, error) {
-	point(f.path, false)
+	dataPoint(f.path, false)
 	return f.File.Read(b)
 }
 
 func (f *File) ReadAt(b []byte, off int64) (int, error) {
-	point(f.path, false)
+	dataPoint(f.path, false)
 	return f.File.ReadAt(b, off)
 }
 
 func (f *File) Sync() error {
-	point(f.path, true)
+	dataPoint(f.path, true)
 	if r, rec := rel(f.path); rec {
 		recLog = append(recLog, Op{Kind: OpSync, Path: r})
 	}
@@ -243,7 +253,7 @@ func (f *File) Sync() error {
 }
 
 func (f *File) Truncate(size int64) error {
-	point(f.path, true)
+	dataPoint(f.path, true)
 	if r, rec := rel(f.path); rec {
 		recLog = append(recLog, Op{Kind: OpTruncate, Path: r, Off: size})
 	}
@@ -251,7 +261,7 @@ func (f *File) Truncate(size int64) error {
 }
 
 func (f *File) Close() error {
-	point(f.path, true)
+	dataPoint(f.path, true)
 	return f.File.Close()
 }
 
@@ -400,4 +410,27 @@ func Glob(pattern string) ([]string, error) {
 	m, err := filepath.Glob(pattern)
 	sort.Strings(m)
 	return m, err
+}
+
+// normName replaces long digit runs (timestamps, random temp-file suffixes) in a file name used for diagnostics.
+func normName(n string) string {
+	b := []byte(n)
+	out := make([]byte, 0, len(b))
+	run := 0
+	for i := 0; i <= len(b); i++ {
+		if i < len(b) && b[i] >= '0' && b[i] <= '9' {
+			run++
+			continue
+		}
+		if run >= 7 {
+			out = append(out, 'N')
+		} else {
+			out = append(out, b[i-run:i]...)
+		}
+		run = 0
+		if i < len(b) {
+			out = append(out, b[i])
+		}
+	}
+	return string(out)
 }
